@@ -14,38 +14,72 @@ sys.path.insert(0, REPO)
 sys.dont_write_bytecode = True
 
 
-def load_props():
-    props = {}
-    pdir = os.path.join(HERE, "props")
-    for f in sorted(os.listdir(pdir)):
-        if f.startswith("c") and f.endswith(".py"):
-            m = importlib.import_module("props." + f[:-3])
-            props[m.PROP.id] = m.PROP
-    return props
+def load_prop(pid):
+    """import only the module of the requested property (props/cNN.py)"""
+    import re
+    if not re.fullmatch(r"C[0-9]{2,3}", pid or ""):
+        return None
+    path = os.path.join(HERE, "props", pid.lower() + ".py")
+    if not os.path.exists(path):
+        return None
+    return importlib.import_module("props." + pid.lower()).PROP
+
+
+def available():
+    import re
+    return sorted(f[:-3].upper() for f in os.listdir(os.path.join(HERE, "props")) if re.fullmatch(r"c[0-9]{2,3}\.py", f))
 
 
 def main(argv):
-    import n0struct
-    assert os.path.dirname(os.path.dirname(os.path.abspath(n0struct.__file__))) == os.path.abspath(REPO), \
-        "n0struct imported from %s, not from %s" % (n0struct.__file__, REPO)
+    import_error = None
+    try:
+        import n0struct
+        assert os.path.dirname(os.path.dirname(os.path.abspath(n0struct.__file__))) == os.path.abspath(REPO), \
+            "n0struct imported from %s, not from %s" % (n0struct.__file__, REPO)
+    except BaseException as e:  # noqa  (the package under test may fail to import: that is a finding, not a crash)
+        import traceback
+        import_error = "".join(traceback.format_exception(type(e), e, e.__traceback__))[-3000:]
     try:
         from loguru import logger
         logger.remove()
     except Exception:
         pass
     from n0v import core
-    props = load_props()
     if len(argv) >= 2 and argv[0] == "--replay":
-        return core.run_replay(props, argv[1])
-    if len(argv) < 1 or argv[0] not in props:
+        import json
+        pid = json.load(open(argv[1])).get("property")
+        cls = load_prop(pid)
+        if cls is None:
+            print("unknown property in replay file: %r" % pid)
+            return 2
+        if getattr(cls, "custom_replay", None):
+            return cls.custom_replay(argv[1])
+        return core.run_replay({pid: cls}, argv[1])
+    cls = load_prop(argv[0]) if argv else None
+    if cls is None:
         print(__doc__)
-        print("properties: " + " ".join(sorted(props)))
+        print("properties: " + " ".join(available()))
         return 2
     tier = argv[1] if len(argv) > 1 else os.environ.get("VERIF_TIER", "quick")
     if tier not in ("quick", "thorough"):
         tier = "quick"
     seed = int(os.environ.get("VERIF_SEED", "0") or 0)
-    cls = props[argv[0]]
+    if import_error and not getattr(cls, "custom_main", None):
+        # no entry point of the package can be called at all: every property fails on `import n0struct`
+        import json
+        os.makedirs(core.REPLAYS, exist_ok=True)
+        os.makedirs(core.EVIDENCE, exist_ok=True)
+        rp = os.path.join(core.REPLAYS, "%s-%s-import.json" % (cls.id, tier))
+        json.dump({"property": cls.id, "tier": tier, "seed": seed, "no_failing_input_found": False,
+                   "failures": [{"kind": "import", "detail": "import n0struct fails in %s" % REPO, "traceback": import_error}]},
+                  open(rp, "w"), indent=1)
+        json.dump({"property_id": cls.id, "tier": tier, "seed": seed, "level": "other",
+                   "coverage": {"explanation": "the package under test failed to import; nothing else could be run: " + import_error[-500:],
+                                "samples": ["import n0struct"]},
+                   "wall_s": 0.0, "violations": 1}, open(os.path.join(core.EVIDENCE, "%s.json" % cls.id), "w"), indent=1)
+        print("VIOLATION property=%s replay=%s" % (cls.id, os.path.relpath(rp, core.VERIF)))
+        print("  - [import] the package under test does not import:\n" + import_error[-800:])
+        return 1
     if getattr(cls, "custom_main", None):
         # a property whose flow is not correspondence-stream shaped (C20: the model is
         # regenerated from the source) drives itself under the same interface
